@@ -182,7 +182,7 @@ pub const ALL_EDIT_KINDS: &[&str] = &[
     "delete_decl", "dup_decl", "swap_decls", "move_decl", "rename_export", "toggle_export",
     "retarget_import", "add_export_star", "second_default", "alias_wrap", "flip_primitive",
     "add_property", "append_type", "truncate", "drop_line", "stray_token", "unbalance", "garbage",
-    "foreign_content", "revert", "create_file", "delete_file", "touch",
+    "foreign_content", "revert", "create_file", "delete_file", "touch", "shadow_file",
 ];
 
 pub struct EditCtx<'a> {
@@ -245,6 +245,31 @@ pub fn apply_edit(kind: &'static str, fs: &Fs, f: &str, content: &str, rng: &mut
             }
             let body = format!("export type New{} = {{ created: true; n: number }};\n", rng.below(3));
             one("create_file", &name, body)
+        }
+        "shadow_file" => {
+            // x.ts <-> x/index.ts <-> x.d.ts : a new file that starts to shadow (or to be shadowed by)
+            // an existing module, with different content
+            if !(f.ends_with(".ts") && !f.ends_with(".d.ts")) {
+                return None;
+            }
+            let stem = f.strip_suffix(".ts")?;
+            let target = match rng.below(3) {
+                0 => {
+                    if let Some(dir) = stem.strip_suffix("/index") {
+                        format!("{}.ts", dir)
+                    } else {
+                        format!("{}/index.ts", stem)
+                    }
+                }
+                1 => format!("{}.d.ts", stem),
+                _ => format!("{}.tsx", stem),
+            };
+            if fs.contains_key(&target) || target == ctx.entry {
+                return None;
+            }
+            // same exports, one property more: resolution decides which one is seen
+            let body = content.replacen('{', "{ shadow_marker?: true; ", 1);
+            one("shadow_file", &target, body)
         }
         "delete_file" => {
             if f == ctx.entry && !rng.chance(1, 8) {
